@@ -31,7 +31,11 @@ BigVariants == << [axis |-> "YX", ns |-> 1, dtype |-> "float32", comp |-> "zstd"
                   [axis |-> "YXS", ns |-> 3, dtype |-> "float32", comp |-> "zstd", nodata |-> <<>>, chunks |-> <<128, 64>>, spill |-> 20000, wpc |-> 2],
                   [axis |-> "YX", ns |-> 1, dtype |-> "float64", comp |-> "lzw", nodata |-> <<>>, chunks |-> <<64, 64>>, spill |-> 4096, wpc |-> 1] >>
 BigCases == {[h |-> 200, w |-> 260, blocks |-> b] @@ BigVariants[k] @@ [vidx |-> 100 + k] : b \in {<<64, 32>>, <<64>>, <<32, 16>>}, k \in 1..Len(BigVariants)}
-WriteCases == BigCases \cup {[h |-> s[1], w |-> s[2], blocks |-> b] @@ Variants[((s[1] + 3 * s[2] + Len(b) + b[1]) % Len(Variants)) + 1] @@ [vidx |-> k] : s \in Shapes, b \in BlockLists, k \in {0}}
+\* non-square tiles: tb = the blocksize list as (rows, columns) pairs (blocks keeps the last row size for the layout rule; the model
+\* comparison is skipped for these, the contract on the file is the same)
+TupleCases == {[h |-> s[1], w |-> s[2], blocks |-> <<tb[Len(tb)][1]>>, tb |-> tb] @@ Variants[k] @@ [vidx |-> 200 + k] :
+                 s \in {<<45, 70>>, <<100, 37>>, <<16, 130>>}, tb \in {<<<<32, 48>>>>, <<<<16, 64>>, <<16, 32>>>>, <<<<48, 16>>>>}, k \in {1, 2, 3, 5}}
+WriteCases == BigCases \cup TupleCases \cup {[h |-> s[1], w |-> s[2], blocks |-> b] @@ Variants[((s[1] + 3 * s[2] + Len(b) + b[1]) % Len(Variants)) + 1] @@ [vidx |-> k] : s \in Shapes, b \in BlockLists, k \in {0}}
               \cup {[h |-> s[1], w |-> s[2], blocks |-> b] @@ Variants[k] @@ [vidx |-> k] : s \in {<<45, 70>>, <<1, 40>>, <<33, 17>>}, b \in {<<32, 16>>, <<16>>}, k \in 1..Len(Variants)}
 VARIABLE c
 Init == c \in {[k |-> b] : b \in BlockLists} \cup {[k |-> <<>>]}
